@@ -11,6 +11,7 @@ EXPLANATION = (
     "smooth model with registered partial derivatives). Asserted per path: value == sum_i log pdf_i written "
     "from the textbook density (logistic with scale sigma*sqrt(3)/pi, i.e. variance sigma^2); gradient == "
     "symbolic derivative of the value w.r.t. every theta_j; cost == -value; cost_gradient == -gradient."
+    " Call-sequence unit: evaluate, overwrite the caller's parameter array in place, evaluate value / gradient / cost / cost_gradient again (gradient before value at a new point): every result is the density at the parameter values of that call. Uncertainties as int arrays, int lists and float32 (dyadic values) give the same density."
 )
 BOUNDS = {"quick": "n<=2 data, p<=2 parameters", "thorough": "n<=3 data, p<=3 parameters; uninterpreted forward model n=2,p=2"}
 ASSUMPTIONS = [
@@ -134,3 +135,26 @@ def uncertainties_of_any_numeric_type(h, cls, form):
         return sum(-zi - 2 * h.log(1 + h.exp(-zi)) for zi in z)
     h.eq("log-likelihood difference between two parameter vectors", L(th) - L(th2), kernel(th) - kernel(th2))
     h.is_gradient("gradient", lambda t: L(t), th, L.gradient(th))
+
+
+@unit("C05", quick=[dict(cls=c) for c in CLS])
+def repeated_calls_depend_only_on_the_current_parameters(h, cls):
+    """a call sequence on one likelihood object: evaluate, change the caller's parameter array in place, evaluate again,
+    then evaluate gradient-before-value at a third point.  Every result must be the named density at the parameter values
+    of *that* call (nothing remembered from an earlier call, nothing tied to the identity of the caller's array)"""
+    n, p = 2, 2
+    lk, L, y, s, th, model = _setup(h, cls, n, p)
+    dt = object if h.sym else float
+    t = np.array(th, dtype=dt)
+    h.eq("first call", L(t), _reference(h, cls, y, s, model(t)))
+    L.gradient(t)
+    new = h.real("t_new", p)
+    t[0] = new[0]
+    h.eq("after changing the caller's array in place: value", L(t), _reference(h, cls, y, s, model(t)))
+    h.is_gradient("after changing the caller's array in place: gradient", lambda q: _reference(h, cls, y, s, model(q)), t, L.gradient(t))
+    h.eq("cost after the change", L.cost(t), -_reference(h, cls, y, s, model(t)))
+    t[1] = new[1]
+    g = L.cost_gradient(t)   # gradient requested before any value at this point
+    h.is_gradient("cost_gradient first at a new point", lambda q: -_reference(h, cls, y, s, model(q)), t, g)
+    h.eq("value at that point", L(t), _reference(h, cls, y, s, model(t)))
+    h.eq("caller's array holds what the caller wrote", t, np.array([new[0], new[1]], dtype=dt))
